@@ -102,6 +102,9 @@ class Check:
         self.tier = tier
         self.technique = technique
         self.t0 = time.time()
+        from symnum import solver as _Z
+        _Z.CROSS.update(enabled=(tier == "thorough" or os.environ.get("VERIF_CROSSCHECK") == "1"), seen=0, sampled=0, agree=0, unknown=0,
+                        disagree=[], seconds=0.0)
         self.obligations = []      # dict(name, verdict, ...)
         self.witnesses = []        # reachability twins
         self.violations = []       # replayed, not known
@@ -209,6 +212,8 @@ class Check:
         # an obligation that came back sat must have produced a violation / known finding / harness error
         solver_time = sum(q["seconds"] for q in Z.QUERY_LOG)
         distinct = len(set(o["name"] for o in self.obligations))
+        for dis in Z.CROSS["disagree"][:3]:
+            self.harness_error("second solver disagrees: %s -- z3 says %s, cvc5 says %s" % (dis["name"], dis["z3"], dis["cvc5"]))
         cov = dict(
             explanation=explanation,
             obligations=n_obl,
@@ -227,6 +232,9 @@ class Check:
             solver_seconds=round(solver_time, 3),
             slowest_queries=sorted(Z.QUERY_LOG, key=lambda q: -q["seconds"])[:8],
             solver_verdicts={v: sum(1 for q in Z.QUERY_LOG if q["verdict"] == v) for v in ("sat", "unsat", "unknown")},
+            second_solver_cross_check=(dict(solver="cvc5 (binary on PATH)", sampled=Z.CROSS["sampled"], agree=Z.CROSS["agree"],
+                                            undecided_by_cvc5=Z.CROSS["unknown"], disagree=Z.CROSS["disagree"][:5],
+                                            seconds=round(Z.CROSS["seconds"], 1)) if Z.CROSS["enabled"] else None),
             witnesses=self.witnesses,
             side_checks=self.side_checks,
             not_discharged=undecided[:50],
